@@ -330,6 +330,7 @@ c06b_run(const c06b_case *c, c06b_out *out) {
 #include <stdarg.h>
 #include <sys/syscall.h>
 #include <sys/wait.h>
+#include <poll.h>
 
 static atomic_uint gc_pidfd_opens;
 
@@ -363,6 +364,7 @@ static c06c_out *gc_out;
 static tp_udata_t gc_ud[C06C_MAX_CH];
 static pid_t gc_pid[C06C_MAX_CH];
 static int gc_pipe[C06C_MAX_CH][2];
+static int gc_watch[C06C_MAX_CH];
 static uint8_t gc_dead[C06C_MAX_CH];
 static atomic_uint gc_fired[C06C_MAX_CH], gc_done, gc_fence;
 
@@ -429,6 +431,17 @@ child_end(size_t ch) {
 		kill(gc_pid[ch], SIGKILL);
 	else
 		(void)!write(gc_pipe[ch][1], "x", 1);
+	if (gc_case->not_child[ch]) {
+		/* not our child: watch it through a descriptor of our own (not accounted to the library) */
+		struct pollfd pfd;
+		pfd.fd = gc_watch[ch];
+		pfd.events = POLLIN;
+		pfd.revents = 0;
+		while (-1 == poll(&pfd, 1, CEIL_MS) && EINTR == errno)
+			;
+		gc_dead[ch] = 1;
+		return;
+	}
 	/* wait until it is really gone, without reaping it (the library reads the status itself) */
 	memset(&si, 0, sizeof(si));
 	while (-1 == waitid(P_PID, (id_t)gc_pid[ch], &si, WEXITED | WNOWAIT) && EINTR == errno)
@@ -449,6 +462,7 @@ c06c_run(const c06c_case *c, c06c_out *out) {
 	/* children first: at this point the process has no pool thread of this case yet */
 	for (ch = 0; ch < C06C_MAX_CH; ch ++) {
 		gc_pid[ch] = -1;
+		gc_watch[ch] = -1;
 		gc_pipe[ch][0] = gc_pipe[ch][1] = -1;
 		gc_dead[ch] = 0;
 		atomic_store(&gc_fired[ch], 0);
@@ -457,6 +471,42 @@ c06c_run(const c06c_case *c, c06c_out *out) {
 		if (0 != pipe2(gc_pipe[ch], O_CLOEXEC)) {
 			out->setup_rc = errno;
 			goto cleanup;
+		}
+		if (c->not_child[ch]) {
+			/* child forks the process to watch, reports its pid and exits: the grandchild is re-parented */
+			int q[2];
+			pid_t mid, gpid = -1;
+			if (0 != pipe2(q, O_CLOEXEC)) {
+				out->setup_rc = errno;
+				goto cleanup;
+			}
+			mid = fork();
+			if (0 == mid) {
+				pid_t g = fork();
+				if (0 == g) {
+					char b;
+					while (-1 == read(gc_pipe[ch][0], &b, 1) && EINTR == errno)
+						;
+					_exit(c->exit_code[ch]);
+				}
+				(void)!write(q[1], &g, sizeof(g));
+				_exit(0);
+			}
+			if (-1 == mid || sizeof(gpid) != read(q[0], &gpid, sizeof(gpid)) || gpid <= 0) {
+				out->setup_rc = (0 != errno) ? errno : -1;
+				close(q[0]); close(q[1]);
+				goto cleanup;
+			}
+			close(q[0]); close(q[1]);
+			while (-1 == waitpid(mid, NULL, 0) && EINTR == errno)
+				;
+			gc_pid[ch] = gpid;
+			gc_watch[ch] = (int)syscall(SYS_pidfd_open, gpid, 0);
+			if (-1 == gc_watch[ch]) {
+				out->setup_rc = errno;
+				goto cleanup;
+			}
+			continue;
 		}
 		gc_pid[ch] = fork();
 		if (0 == gc_pid[ch]) { /* child: async-signal-safe calls only */
@@ -524,8 +574,15 @@ c06c_run(const c06c_case *c, c06c_out *out) {
 			proc_snap(st->fired_at_ret);
 			break;
 		}
-		if (cm->await && 0 != tp_wait_until(&gc_fired[ch], base[ch] + 1, CEIL_MS / 2) && -1 == out->never_fired_step)
-			out->never_fired_step = (int)i;
+		{
+			/* a registration of an already dead process that is not our child succeeds only while nobody has
+			 * reaped it yet: the callback is due exactly when the call returned 0 */
+			int due = cm->await;
+			if ((P_ADD == cm->cmd || P_ENABLE == cm->cmd) && c->not_child[ch] && gc_dead[ch] && 2 == cm->await)
+				due = (0 == st->rc);
+			if (due && 0 != tp_wait_until(&gc_fired[ch], base[ch] + 1, CEIL_MS / 2) && -1 == out->never_fired_step)
+				out->never_fired_step = (int)i;
+		}
 		out->hang |= proc_fences(4);
 		proc_snap(st->fired_after);
 		usleep(1500);
@@ -552,9 +609,12 @@ cleanup:
 			if (!gc_dead[ch]) {
 				kill(gc_pid[ch], SIGKILL);
 			}
-			while (-1 == waitpid(gc_pid[ch], NULL, 0) && EINTR == errno)
-				;
+			if (!c->not_child[ch]) {
+				while (-1 == waitpid(gc_pid[ch], NULL, 0) && EINTR == errno)
+					;
+			}
 		}
+		if (gc_watch[ch] >= 0) close(gc_watch[ch]);
 		if (gc_pipe[ch][0] >= 0) close(gc_pipe[ch][0]);
 		if (gc_pipe[ch][1] >= 0) close(gc_pipe[ch][1]);
 	}
